@@ -164,3 +164,14 @@ Definition judge_uses (c : list str * list str) : nat :=
   let given := fst c in let impl := snd c in
   let bad := negb (list_eqb str_eqb (shown_uses given (seq 0 (length given))) impl) in
   verdict bad bad 0.
+
+(* find_all_files against Out/Project.v sources: (paths of the Fortran files below the project directory,
+   source directory, excluded directories, what find_all_files returned) — compared as sets.
+   A mismatch is a violation as well: files of an excluded (output) directory are then documented. *)
+Definition path_inb (p : list str) (l : list (list str)) : bool := existsb (list_eqb str_eqb p) l.
+Definition judge_sources (c : list (list str) * list str * list (list str) * list (list str)) : nat :=
+  let paths := fst (fst (fst c)) in let src := snd (fst (fst c)) in
+  let excl := snd (fst c) in let impl := snd c in
+  let model := map fst (sources src excl (map (fun p => (p, [])) paths)) in
+  let bad := negb (forallb (fun p => path_inb p impl) model && forallb (fun p => path_inb p model) impl) in
+  verdict bad bad 0.
